@@ -125,7 +125,7 @@ func (s *Store) mk(t *Term) *Term {
 	s.computeKnown(t)
 	if t.Op == OpConst {
 		t.cl = 1
-	} else if t.Op == OpIte && t.A[1].cl > 0 && t.A[2].cl > 0 && int(t.A[1].cl)+int(t.A[2].cl) < 600 {
+	} else if t.Op == OpIte && t.A[1].cl > 0 && t.A[2].cl > 0 && int(t.A[1].cl)+int(t.A[2].cl) < 8000 {
 		t.cl = t.A[1].cl + t.A[2].cl + 1
 	}
 	s.tab[k] = t
@@ -418,6 +418,19 @@ func (s *Store) BV(op Op, a, b *Term) *Term {
 	}
 	if isTree(b) && a.IsConst() {
 		return s.mapLeaves(b, func(l *Term) *Term { return s.BV(op, a, l) }, map[*Term]*Term{})
+	}
+	if isTree(a) && isTree(b) && int(a.cl)*int(b.cl) <= 40000 {
+		// both operands are constant-leaf decision trees (typically varint
+		// sizes): combine them leaf by leaf so that the result is again one
+		inner := map[uint64]*Term{}
+		return s.mapLeaves(a, func(la *Term) *Term {
+			if r, ok := inner[la.K]; ok {
+				return r
+			}
+			r := s.mapLeaves(b, func(lb *Term) *Term { return s.BV(op, la, lb) }, map[*Term]*Term{})
+			inner[la.K] = r
+			return r
+		}, map[*Term]*Term{})
 	}
 	if isCommutative(op) && a.IsConst() {
 		a, b = b, a
